@@ -231,6 +231,8 @@ def h_chunked(k, mx, fam, c_src, n_src, n_dst, axis, extra, dtype, nodata, dchun
         for s in shape:
             n *= s
         data = (real_np.arange(n).reshape(shape) % 200 + 1).astype(dtype)
+        if sn is not None:
+            data[..., ::2, 1::3] = sn  # missing pixels in the source: the warper turns them into the destination nodata
         ref = real_np.empty(dst_full_shape, dtype=dtype)
         warp.rio_reproject(data, ref, src_g, dst_g, "nearest", src_nodata=sn, dst_nodata=dn, ydim=ydim)
         dd = da.from_array(data, chunks=full_chunks)
